@@ -31,6 +31,8 @@ def scenarios(rep, tier, seed):
         if not S.materialise_pre(scn):
             continue
         scns.append(scn)
+    scns += S.extreme_unit_scenarios(random.Random(seed * 1000003 + 202), 160 if thorough else 40, nq=0)
+    scns += S.extreme_unit_scenarios(random.Random(seed * 1000003 + 203), 40 if thorough else 12, kind="semi", nq=0, nu=2)
     return scns
 
 
